@@ -80,6 +80,9 @@ def c03(ck, F, tier):
     ck.rule("CANON-RECORD", "recorded text that replay re-parses is language-independent", floor=10)
     guarded(ck, um.canon_record, F)
 
+    ck.rule("EFFECT-PARITY", "tables an operation writes are tables its replay arms can write", floor=40)
+    guarded(ck, um.effect_parity, F)
+
 
 def c04(ck, F, tier):
     import rules_um as um
